@@ -487,21 +487,53 @@ Qed.
 
 (* ---------------------------------------------------------------------------------------------- *)
 (* the round trip *)
+Lemma strip_no_bom : forall s, no_bom s = true -> strip_bom s = Some s.
+Proof.
+  intros s H. destruct s as [|b0 [|b1 [|b2 [|b3 r]]]]; try reflexivity. cbn [no_bom] in H. apply negb_true_iff in H.
+  cbn [strip_bom]. rewrite H. reflexivity.
+Qed.
+Lemma num_start_not_ef : forall b st, num_start b = Some st -> Byte.eqb b xef = false.
+Proof. intros b st. destruct b; vm_compute; intros H; try reflexivity; discriminate H. Qed.
+Lemma num_end_no_bom : forall raw st r, num_end raw = Some st -> no_bom (raw ++ r) = true.
+Proof.
+  intros raw st r H. destruct raw as [|b t]; [discriminate|]. cbn [num_end] in H.
+  destruct (num_start b) eqn:E; [|discriminate]. cbn [app no_bom]. rewrite (num_start_not_ef _ _ E). reflexivity.
+Qed.
+Lemma write_no_bom : forall f sty v, text_ok false f v = true -> top_ok f v = true -> no_bom (write f sty v) = true.
+Proof.
+  intros f sty v Hok Htop. unfold write. destruct v; cbn [wr].
+  - destruct f; reflexivity.
+  - destruct b, f; reflexivity.
+  - unfold print. cbn [flat_map print_piece print_token]. destruct (print_int_scan z) as (st & E & _). eapply num_end_no_bom; eauto.
+  - unfold print. cbn [flat_map print_piece print_token]. destruct (print_int_scan z) as (st & E & _). eapply num_end_no_bom; eauto.
+  - cbn [text_ok] in Hok. unfold dec_ok in Hok. unfold print. cbn [flat_map print_piece print_token].
+    destruct (num_end raw) eqn:E; [|discriminate]. eapply num_end_no_bom; eauto.
+  - destruct f; [reflexivity|]. cbn [str_token]. destruct (sen_quote s) eqn:Q; [reflexivity|].
+    unfold print. cbn [flat_map print_piece print_token]. rewrite (sen_quote_false s Q), app_nil_r.
+    destruct s as [|b t]; [reflexivity|]. cbn [top_ok] in Htop. rewrite Q in Htop. cbn [orb] in Htop. exact Htop.
+  - destruct l; reflexivity.
+  - reflexivity.
+Qed.
 Lemma parse_of_tokens : forall f v, value_ok f v = true -> parse_tokens (tokens_of f v) = Some v.
 Proof. intros f v H. unfold parse_tokens. rewrite (parse_tokens_of f v H (PS [] None) I). reflexivity. Qed.
 
 (* any text that consists of the tokens of v separated (where needed) by white space or commas parses to v *)
 Theorem parse_any_layout : forall f ps v,
-  wf_pieces f PNone ps = true -> toks ps = tokens_of f v -> value_ok f v = true -> parse (print f ps) = Some v.
-Proof. intros f ps v Hwf Ht Hv. unfold parse. rewrite (lex_print f ps Hwf), Ht. apply parse_of_tokens. exact Hv. Qed.
+  wf_pieces f PNone ps = true -> toks ps = tokens_of f v -> value_ok f v = true -> no_bom (print f ps) = true ->
+  parse (print f ps) = Some v.
+Proof.
+  intros f ps v Hwf Ht Hv Hb. unfold parse. rewrite (strip_no_bom _ Hb). unfold parse_body.
+  rewrite (lex_print f ps Hwf), Ht. apply parse_of_tokens. exact Hv.
+Qed.
 
 (* the four writers *)
-Theorem write_parse_roundtrip : forall f sty v, text_ok false f v = true -> parse (write f sty v) = Some v.
+Theorem write_parse_roundtrip : forall f sty v, text_ok false f v = true -> top_ok f v = true -> parse (write f sty v) = Some v.
 Proof.
-  intros f sty v H. unfold write. apply parse_any_layout.
+  intros f sty v H Ht. pose proof (write_no_bom f sty v H Ht) as Hb. unfold write in *. apply parse_any_layout.
   - apply (wr_wf f sty false v H).
   - apply toks_wr.
   - eapply text_value_ok; eauto.
+  - exact Hb.
 Qed.
 
 (* ---------------------------------------------------------------------------------------------- *)
@@ -511,7 +543,8 @@ Proof. intros f s H. unfold lex. rewrite lex_quoted by assumption. reflexivity. 
 Theorem integer_roundtrip : forall z, parse (print_int z) = Some (if small z then JInt z else JBig z).
 Proof.
   intros z. destruct (print_int_scan z) as (st & E & I & F).
-  unfold parse, lex. rewrite (lex_num _ _ _ E).
+  unfold parse. rewrite strip_no_bom by (rewrite <- (app_nil_r (print_int z)); eapply num_end_no_bom; eauto).
+  unfold parse_body, lex. rewrite (lex_num _ _ _ E).
   assert (Hf : lex_finish (LNum st (List.rev (print_int z)), []) = Some [TNum true (print_int z)]).
   { cbn [lex_finish]. destruct st; try discriminate F; try discriminate I; cbn [List.rev app]; rewrite rev_involutive; reflexivity. }
   rewrite Hf. unfold parse_tokens. cbn [prun fold_left pstep]. unfold num_value. rewrite print_int_value. reflexivity.
@@ -526,8 +559,8 @@ Definition sample_doc : jv :=
                        JStr (B [195; 169; 226; 128; 168; 240; 159; 152; 128; 239; 191; 189]%N);
                        JArr []; JObj []; JArr [JArr [JArr [JArr [JInt 1]]]]]);
         (Bs "null", JStr (Bs "nullx")); (B [228; 184; 173]%N, JObj [(Bs "a b", JStr (Bs "1"))])].
-Example sample_in_guard : text_ok false FJson sample_doc = true /\ text_ok false FSen sample_doc = true.
-Proof. split; vm_compute; reflexivity. Qed.
+Example sample_in_guard : text_ok false FJson sample_doc = true /\ text_ok false FSen sample_doc = true /\ top_ok FSen (JStr (B [239; 189; 177; 98]%N)) = false.
+Proof. repeat split; vm_compute; reflexivity. Qed.
 Example sample_roundtrips :
   forallb (fun fs => match parse (write (fst fs) (snd fs) sample_doc) with Some v => true | None => false end)
           [(FJson, Tight); (FJson, Indent2); (FSen, Tight); (FSen, Indent2)] = true.
@@ -545,6 +578,10 @@ Proof. vm_compute. reflexivity. Qed.
 Theorem invalid_utf8_refuted :
   parse (write FJson Tight (JStr (B [255]%N))) = Some (JStr (B [239; 191; 189]%N)) /\
   parse (write FSen Tight (JStr (B [97; 195]%N))) = Some (JStr (B [97; 239; 191; 189]%N)).
+Proof. split; vm_compute; reflexivity. Qed.
+Theorem sen_bom_string_refuted :
+  parse (write FSen Tight (JStr (B [239; 187; 191; 98; 111; 109]%N))) = Some (JStr (Bs "bom")) /\
+  parse (write FSen Indent2 (JStr (B [239; 189; 177; 98; 99; 100]%N))) = None.
 Proof. split; vm_compute; reflexivity. Qed.
 Theorem int64_edge_refuted :
   parse (write FJson Tight (JInt 9223372036854775807)) = Some (JBig 9223372036854775807) /\
